@@ -57,6 +57,10 @@ func (t *BaseTraveler) Copy() Traveler {
 		Signal: t.Signal,
 	}
 	for k, v := range t.Marks {
+		if v == nil {
+			o.Marks[k] = nil
+			continue
+		}
 		o.Marks[k] = &DataElement{
 			ID:    v.ID,
 			Label: v.Label,
@@ -138,6 +142,9 @@ func (t *BaseTraveler) GetCurrent() *DataElement {
 }
 
 func (t *BaseTraveler) GetCurrentID() string {
+	if t.Current == nil {
+		return ""
+	}
 	return t.Current.ID
 }
 
